@@ -77,6 +77,12 @@ def gen_lines(rng, w, cap, tier):
     for _ in range(150 if tier == "quick" else 3000):
         bits = rng.choice([0, 1, w - 1, w, w + 1, 255, 256, 257, rng.below(cap * w + 40)])
         out.append("bn_rand %s %d %d" % (rng.bytes(8).hex(), rng.below(2), bits))
+    # sampling below a bound: tiny bounds (the residue is zero for a large share of the draws), powers of two and their neighbours, one
+    # and several digits, bounds close to the capacity
+    for _ in range(150 if tier == "quick" else 3000):
+        k = rng.choice([2, 3, 8, 63, 64, 65, 128, 255, 256, 257, 1 + rng.below(cap * w - 50)])
+        b = rng.choice([2, 2, 3, 4, 5, 7, 1 << k, (1 << k) + 1, (1 << k) - 1, rng.bits(k) | (1 << (k - 1)), 2 + rng.below(14)])
+        out.append("bn_rand_mod %s %x" % (rng.bytes(8).hex(), max(b, 2)))
     return out
 
 
